@@ -119,6 +119,13 @@ func (ucr *UnsignedChunkReader) Read(p []byte) (int, error) {
 		return 0, err
 	}
 
+	// The underlying reader defers the request authorization until it
+	// reaches io.EOF: make sure the end is actually read, so that an error
+	// delivered together with the final bytes isn't left in the buffer
+	if _, err := ucr.reader.Peek(1); err != nil && err != io.EOF {
+		return 0, err
+	}
+
 	return ucr.offset, io.EOF
 }
 
